@@ -2,7 +2,10 @@
 
 package launch
 
-import "net"
+import (
+	"context"
+	"net"
+)
 
 // VerifRateLimiter returns the *RateLimiter, which RateLimitHandler chooses
 // for the request, like allow() does, but without consuming a token; the
@@ -38,4 +41,14 @@ func (r *RateLimitHandler) VerifCachedRateLimiter(addr net.Addr, handler string)
 	l, _ := i.Value(handler)
 
 	return l
+}
+
+// VerifShrink is shrink() with MaxAddrs set to maxAddrs for this call.
+func (r *RateLimitHandler) VerifShrink(ctx context.Context, maxAddrs uint64) uint64 {
+	prev := r.args.MaxAddrs
+	r.args.MaxAddrs = maxAddrs
+
+	defer func() { r.args.MaxAddrs = prev }()
+
+	return r.shrink(ctx)
 }
